@@ -216,3 +216,37 @@ def run(ctx):
             ctx.violation("arguments-modified", f"pairwise_special_metric({name}) modified its data", {"metric": name, "X": X0.tolist()},
                           key=f"C12:{name}:pairwise-mutates")
         ctx.case(key="pairwise" + name, nontrivial=True, part="pairwise")
+
+    # the pairwise driver with a callable metric and parameters, called several times in one process with different parameter
+    # values (what successive fits / transforms with other metric_kwds do): every call must use the parameters it was given
+    par_sets = {"minkowski": [{"p": 1.0}, {"p": 3.0}, {"p": 1.5}],
+                "wminkowski": [{"w": None, "p": 1.0}, {"w": None, "p": 3.0}],
+                "seuclidean": [{"sigma": None}, {"sigma": None}],
+                "mahalanobis": [{"vinv": None}, {"vinv": None}]}
+    for name, sets in par_sets.items():
+        if name not in D.named_distances:
+            continue
+        f = D.named_distances[name]
+        n, d = 6, 4
+        X = rng.normal(size=(n, d))
+        Y = rng.normal(size=(3, d))
+        for kw in sets:
+            kw = dict(kw)
+            for k_ in kw:
+                if kw[k_] is None:
+                    if k_ == "vinv":
+                        A_ = rng.normal(size=(d, d))
+                        kw[k_] = A_ @ A_.T / d + 0.5 * np.eye(d)
+                    else:
+                        kw[k_] = rng.uniform(0.5, 2.0, d)
+            for Q in (None, Y):
+                M = D.pairwise_special_metric(X.copy(), None if Q is None else Q.copy(), metric=f, kwds=dict(kw))
+                P2 = X if Q is None else Q
+                ref = np.array([[float(f(X[i].copy(), P2[j].copy(), *kw.values())) for j in range(P2.shape[0])] for i in range(n)])
+                if Q is None:
+                    np.fill_diagonal(ref, 0.0)
+                if not np.allclose(M, ref, rtol=1e-5, atol=1e-6):
+                    ctx.violation("pairwise", f"pairwise_special_metric({name}, kwds={ {k_: np.round(np.asarray(v), 3).tolist() for k_, v in kw.items()} }) differs from the metric "
+                                              f"called with the same parameters by {float(np.max(np.abs(M - ref))):.3g} (earlier calls in this process used other parameter values)",
+                                  {"metric": name, "X": X.tolist(), "kwds": {k_: np.asarray(v).tolist() for k_, v in kw.items()}}, key=f"C12:{name}:pairwise-params")
+            ctx.case(key="pairwise-params" + name + str(sorted(kw)), nontrivial=True, part="pairwise-params")
